@@ -147,7 +147,7 @@ def check_aes(pid, tier, replay=None):
         rp = json.load(open(replay))
         a = rp["args"]
         r = aescheck.run_one(drv, a[0], a[1], int(a[2]), int(a[3]), int(a[4]), env=rp.get("env") or None)
-        bad = [m for m in r["monitors"] if any(p in m for p in prefixes)] or [d for d in r["diffs"] if d["op"].split()[0] in kinds]
+        bad = [m for m in r["monitors"] if any(p in m for p in prefixes)] or [d for d in r["diffs"] if d["op"].split() and d["op"].split()[0] in kinds]
         print("replay: monitors=%s diffs=%d" % (r["monitors"][:3], len(r["diffs"])))
         return 1 if bad else 0
     if tier == "quick":
@@ -205,13 +205,13 @@ def check_aes(pid, tier, replay=None):
                 if "VERIF_GUARD" in (r.get("env") or {}):
                     rr["monitors"] = [m.replace("C08-", prefixes[0] + "guard-") if "C08-" in m else m for m in rr["monitors"]]
                     rr["env"] = r["env"]
-                bad = [m for m in rr["monitors"] if any(p in m for p in prefixes)] or [d for d in rr["diffs"] if d["op"].split()[0] in kinds]
+                bad = [m for m in rr["monitors"] if any(p in m for p in prefixes)] or [d for d in rr["diffs"] if d["op"].split() and d["op"].split()[0] in kinds]
                 if bad:
                     hi, best = mid, rr
                 else:
                     lo = mid + 1
             mine2 = [m for m in best["monitors"] if any(p in m for p in prefixes) or m.startswith("CRASH")]
-            d2 = [d for d in best["diffs"] if d["op"].split()[0] in kinds]
+            d2 = [d for d in best["diffs"] if d["op"].split() and d["op"].split()[0] in kinds]
             if mine2:
                 what = mine2[0].split()[1] if len(mine2[0].split()) > 1 else mine2[0]
                 chk.violation("%s in %s" % (what, key),
